@@ -771,6 +771,56 @@ Definition c08_run (toks : list (list N)) : list (list N) :=
   end.
 
 (* ---------------- C17 ---------------- *)
+(* the head writers. in: [0; minor; a; b; c] reason flat-headers rest   (response)
+                         [1; minor; has_host] method target host flat-headers rest   (request)
+   flat headers: n, name bytes, m, value bytes, ...
+   out: the bytes written; [1] if reading them back under RFC 9112 gives the same fields (values up to leading blanks) and [rest] *)
+From TT Require Import Model.Http1Wire Spec.Rfc9112.
+
+Fixpoint dec_headers (fuel : nat) (l : list N) : list header :=
+  match fuel with
+  | O => []
+  | S f =>
+    match l with
+    | [] => []
+    | n :: r =>
+      let name := takeN n r in
+      match dropN n r with
+      | m :: r2 => (name, takeN m r2) :: dec_headers f (dropN m r2)
+      | [] => [(name, [])]
+      end
+    end
+  end.
+
+Definition headers_eqb (a b : list header) : bool :=
+  list_eqb (fun x y => list_eqb N.eqb (fst x) (fst y) && list_eqb N.eqb (snd x) (snd y)) a b.
+
+Definition c08_wire (toks : list (list N)) : list (list N) :=
+  match toks with
+  | [0; minor; a; b; c] :: reason :: flat :: rest :: _ =>
+    let hs := dec_headers (length flat) flat in
+    let bytes := enc_response minor [a; b; c] reason hs in
+    [bytes;
+     [match read_response (S (length hs)) (bytes ++ rest) with
+      | Some (r, tail) =>
+        if (rs_minor r =? minor) && list_eqb N.eqb (rs_status r) [a; b; c] && list_eqb N.eqb (rs_reason r) reason
+           && headers_eqb (rs_headers r) (map (fun h => (fst h, trim_ows (snd h))) hs) && list_eqb N.eqb tail rest then 1 else 0
+      | None => 0
+      end]]
+  | [1; minor; has_host] :: method :: target :: host :: flat :: rest :: _ =>
+    let hs := dec_headers (length flat) flat in
+    let bytes := enc_request method target minor (if has_host =? 1 then Some host else None) hs in
+    let hs' := if has_host =? 1 then ([72; 111; 115; 116], host) :: hs else hs in
+    [bytes;
+     [match read_request (S (length hs')) (bytes ++ rest) with
+      | Some (r, tail) =>
+        if (rq_minor r =? minor) && list_eqb N.eqb (rq_method r) method && list_eqb N.eqb (rq_target r) target
+           && headers_eqb (rq_headers r) (map (fun h => (fst h, trim_ows (snd h))) hs') && list_eqb N.eqb tail rest then 1 else 0
+      | None => 0
+      end]]
+  | _ => REJECT_TOK
+  end.
+
 From TT Require Import Model.Forwarded.
 
 (* in: [mode; n] body_stream seg_sizes accepts    mode 0 close-delimited | 1 Content-Length n | 2 chunked
